@@ -33,12 +33,13 @@ def budget(tier):
 
 def generate(seed, tier):
     st = Streams(seed)
-    rng = st.prog
-    cfg = {"widths": rng.choice([[2, 3], [2, 3, 4], [3]]), "signed": rng.random() < 0.5,
-           "depth": 1, "max_stmts": 3, "max_blocks": 2, "ps": False, "shifts": False, "divmod": False,
-           "arith": ["+", "-"], "stmts": ["expr", "expr", "in"], "nonrand": True}
-    g = progs.ListGen(rng, cfg)
-    prog = g.list_program(gates=("randsz-aggregate",))
+    def build(rng):
+        cfg = {"widths": rng.choice([[2, 3], [2, 3, 4], [3]]), "signed": rng.random() < 0.5,
+               "depth": 1, "max_stmts": 3, "max_blocks": 2, "ps": False, "shifts": False, "divmod": False,
+               "arith": ["+", "-"], "stmts": ["expr", "expr", "in"], "nonrand": True}
+        g = progs.ListGen(rng, cfg)
+        return g.list_program(gates=("randsz-aggregate",)), g, cfg
+    prog, g, cfg = scen.prefer_sat(st, build, lambda o: "K0")
     P = refsem.Prog(prog)
     lists = [f for f in P.fields("K0") if f["k"] in ("l", "le")]
     orng = st.ops
@@ -237,6 +238,8 @@ def execute(rec):
             for s_ in b["stmts"]:
                 if s_["t"] == "unique_vec" and len(set(lens_before[a["p"][0]] for a in s_["args"])) > 1:
                     mismatch = True
+        witness = (not mismatch) and w.witness(op)
+        pre = w.tree(p) if witness else None
         out = w.apply(op)
         if mismatch:
             stats["ambiguous_skipped"] += 1
@@ -250,7 +253,15 @@ def execute(rec):
                 viol.append({"inv": "C04.body_holds", "cls": "C04.exception/%s/%s" % (out.get("exc"), out.get("where")),
                              "detail": {"op": oi, "outcome": out}})
                 break
+            if witness:
+                # the exposed lists as they stood satisfy every constraint: only a constraint built
+                # over something else (stale / hidden elements) can have made the call fail
+                viol.append({"inv": "C04.body_holds", "cls": "C04.body_holds/fails_with_witness",
+                             "detail": {"op": oi, "state": pre, "outcome": out}})
+                break
             continue
+        if witness:
+            stats["witness_calls"] = stats.get("witness_calls", 0) + 1
         tree = w.tree(p)
         obs.append((oi, kind, "ok", tree))
         stats["judged_calls"] += 1
